@@ -395,7 +395,28 @@ func isYieldSig(sig *types.Signature) bool {
 	return n >= 1 && n <= 2
 }
 
+func (x *Exec) globalStructFacts(st *State) {
+	for g, fields := range x.L.globalStructs {
+		key := x.globalKey(g)
+		if !x.L.immutableGlobal[key] {
+			continue
+		}
+		T := g.Type().(*types.Pointer).Elem()
+		if _, ok := T.Underlying().(*types.Struct); !ok {
+			continue
+		}
+		si := x.te.Struct(T)
+		gt := x.heapGet(st, key, si.Sort)
+		for _, f := range fields {
+			cv := x.constVal(f.Const)
+			st.assume(Eq(si.Get(gt, f.Field), cv.T))
+		}
+		x.funcsUsed["struct:value of "+g.Name()+" read off the package initialiser (never reassigned)"] = true
+	}
+}
+
 func (x *Exec) sentinelFacts(st *State) {
+	x.globalStructFacts(st)
 	var errs []Term
 	for _, sp := range x.L.spkgs {
 		if !x.L.isRepoPkg(sp.Pkg) {
